@@ -731,7 +731,7 @@ def gen_c04(ctx):
         h("c04_kbdlevel_d%d" % d, "kbdlevel_case::<%d, %d>(&KITTYKBD)" % (n, d), "quick" if d == 1 else "thorough", 1800,
           "kitty keyboard level report with a %d digit level" % d,
           "decoder::KittyKeyboardMatcher::decode, decoder::number_decode", n + 3)
-    h("c04_kittyimg_msg3", "kittyimg_case(&KITTYIMG)", "thorough", 1800,
+    h("c04_kittyimg_msg3", "kittyimg_case(&KITTYIMG)", "experimental", 3000,
       "kitty graphics response with a 1 digit id and every 3 character printable ASCII message (separators included)",
       "decoder::KittyImageMatcher::decode, decoder::key_value_decode, decoder::number_decode", 16)
     return {"c04_gen": "\n".join(out)}
